@@ -19,7 +19,7 @@ import (
 )
 
 type opT struct {
-	Kind  string `json:"kind"` // apply delete delete-temp clear-temp
+	Kind  string `json:"kind"` // apply delete delete-temp clear-temp restore-temp
 	Shape int    `json:"shape,omitempty"`
 }
 
@@ -27,6 +27,7 @@ var histories = [][]opT{
 	{{"apply", 0}, {"apply", 2}, {"apply", 4}, {"apply", 0}, {"apply", 1}, {"delete", 0}, {"delete-temp", 0}, {"apply", 3}, {"clear-temp", 0}, {"apply", 0}},
 	{{"apply", 1}, {"apply", 0}, {"apply", 0}, {"apply", 7}, {"delete-temp", 0}, {"apply", 2}, {"apply", 5}, {"delete", 0}},
 	{{"apply", 2}, {"delete-temp", 0}, {"apply", 6}, {"apply", 0}, {"apply", 0}, {"apply", 0}, {"delete", 0}, {"apply", 4}},
+	{{"apply", 1}, {"apply", 2}, {"apply", 0}, {"delete-temp", 0}, {"delete-temp", 0}, {"restore-temp", 0}, {"restore-temp", 0}, {"apply", 0}},
 }
 
 // largeHistory has block steps whose single write batch exceeds 4 MiB (shape 8: 400 transactions of 13 KiB), applied,
@@ -46,7 +47,7 @@ var sysPrefixes = [][]opT{
 	{{"apply", 2}, {"delete-temp", 0}, {"apply", 6}, {"apply", 0}, {"apply", 0}},
 }
 var sysAlphabet = []opT{{"apply", 0}, {"apply", 1}, {"apply", 2}, {"apply", 3}, {"apply", 4}, {"apply", 5}, {"apply", 6}, {"apply", 7},
-	{"delete", 0}, {"delete-temp", 0}, {"clear-temp", 0}}
+	{"delete", 0}, {"delete-temp", 0}, {"clear-temp", 0}, {"restore-temp", 0}}
 
 type caseT struct {
 	Ops     []opT  `json:"ops,omitempty"` // systematic part: the whole history (History = -1)
@@ -81,6 +82,19 @@ func doOp(n *node.Node, o opT) error {
 		return n.Exec.VerifDeleteBlock(n.Tip(), true)
 	case "clear-temp":
 		n.Chain.DataAccess().ClearTempBlocks()
+	case "restore-temp":
+		// what a failed fast sync does: the temp block that follows the tip is applied again and leaves the temp table in the same step
+		tbs, err := n.Chain.DataAccess().GetTempBlocks()
+		if err != nil {
+			return err
+		}
+		tip := n.Tip()
+		for _, b := range tbs {
+			if b.Header.Height == tip.Header.Height+1 && string(b.Header.PreviousBlockID) == string(tip.Header.ID) {
+				return n.Exec.VerifProcessValidated(b, true)
+			}
+		}
+		return fmt.Errorf("no temp block follows the tip")
 	}
 	return nil
 }
@@ -366,7 +380,7 @@ func main() {
 			}
 		}
 	}
-	r.Set("systematic_depth", depth)
+	r.Set("max_systematic_depth", depth)
 	r.RunItems(items, func(it string) {
 		if it[0] == 'j' {
 			ji, _ := strconv.Atoi(it[1:])
